@@ -13,16 +13,16 @@ fn domain(tier: Tier) -> Vec<Shape> {
                 v.push(Shape::Rect { x, y, w, h });
             }
         }
-        for d in 0..=tier.pick(40, 200) {
+        for d in 0..=tier.pick(96, 200) {
             v.push(Shape::Circle { x, y, d });
         }
-        let e = tier.pick(24, 96);
+        let e = tier.pick(40, 96);
         for w in 0..=e {
             for h in 0..=e {
                 v.push(Shape::Ellipse { x, y, w, h });
             }
         }
-        let (ms, mr) = tier.pick((10, 6), (18, 11));
+        let (ms, mr) = tier.pick((12, 7), (18, 11));
         for w in 0..=ms {
             for h in 0..=ms {
                 for rx in 0..=mr {
@@ -32,10 +32,10 @@ fn domain(tier: Tier) -> Vec<Shape> {
                 }
             }
         }
-        // unequal corners, including radii larger than the rectangle
-        let alpha: &[(u32, u32)] = if t { &[(0, 0), (1, 3), (3, 1), (5, 5), (2, 9), (9, 2), (20, 20)] } else { &[(0, 0), (1, 3), (3, 1), (5, 5), (2, 9)] };
+        // unequal corners, including radii larger than the rectangle and neighbouring corners of equal height but different width (and vice versa)
+        let alpha: &[(u32, u32)] = if t { &[(0, 0), (1, 3), (3, 1), (5, 5), (2, 9), (9, 2), (20, 20), (9, 9), (4, 3)] } else { &[(0, 0), (1, 3), (3, 1), (5, 5), (2, 9), (9, 9), (4, 3)] };
         let sizes: &[(u32, u32)] =
-            if t { &[(7, 6), (3, 11), (8, 8), (10, 4), (1, 8), (5, 5), (12, 12), (2, 2), (6, 13)] } else { &[(7, 6), (3, 11), (8, 8), (1, 8), (10, 4)] };
+            if t { &[(7, 6), (3, 11), (8, 8), (10, 4), (1, 8), (5, 5), (12, 12), (2, 2), (6, 13)] } else { &[(7, 6), (3, 11), (8, 8), (1, 8), (10, 4), (16, 13), (20, 10)] };
         for &(w, h) in sizes {
             for &tl in alpha {
                 for &tr in alpha {
@@ -48,7 +48,7 @@ fn domain(tier: Tier) -> Vec<Shape> {
             }
         }
         // sectors
-        let (md, step) = tier.pick((16, 15), (48, 5));
+        let (md, step) = tier.pick((24, 10), (48, 5));
         for d in 0..=md {
             let mut s = 0;
             while s < 360 {
